@@ -88,6 +88,7 @@ def default_await(I, v):
             if g.get("io_may_fail") and I.prover.fork(I.fresh("read_fails", z3.BoolSort())):
                 I.raise_builtin("ConnectionResetError", "read failed")
             data = I.fresh_sym("chunk")
+            g["unappended"] = True
             if v.what == "read":
                 I.prover.assume(is_bytes(data.term))
             else:
@@ -106,6 +107,7 @@ def _apply_buffer_process(I, f, args, kwargs):
     gets genuine messages only.  One generic delivery stands for each of the deliveries (they are
     independent: the callback's effect on the router is abstract)."""
     cb = args[1]
+    I.ghost["unprocessed"] = False
     I.ghost["process_calls"] = I.ghost.get("process_calls", 0) + 1
     n = I.prover.choice(2, "deliveries in this call")
     if n == 1:
@@ -122,6 +124,7 @@ def make_tcp_server_handler(I, with_router=True):
     mod = I.import_module("indi.transport.server.tcp")
     CH = mod.ns["ConnectionHandler"]
     I.contracts[BUFFER_PROCESS.key] = BUFFER_PROCESS
+    install_promptness_ghost(I)
     I.await_hook = default_await
     reader, writer = Sym(I.fresh("reader"), ReaderIface()), Sym(I.fresh("writer"), WriterIface())
     router = Sym(I.fresh("router"), RouterIface()) if with_router else None
@@ -135,6 +138,7 @@ def make_tty_handler(I):
     mod = I.import_module("indi.transport.server.tty")
     CH = mod.ns["ConnectionHandler"]
     I.contracts[BUFFER_PROCESS.key] = BUFFER_PROCESS
+    install_promptness_ghost(I)
     I.await_hook = default_await
     stdin, stdout = Sym(I.fresh("stdin"), ReaderIface()), Sym(I.fresh("stdout"), WriterIface())
     router = Sym(I.fresh("router"), RouterIface())
@@ -150,8 +154,29 @@ def _recv_loop(I, ordinal, it):
     return None
 
 
-_RECV_LOOP = LoopContract(lambda ctx: [("connection-keeps-serving(no-exception-escaped-the-iteration)", z3.BoolVal(True))], None,
-                          props="C12,C18", label="receive")
+def _recv_inv(ctx):
+    g = ctx.interp.ghost
+    return [("connection-keeps-serving(no-exception-escaped-the-iteration)", z3.BoolVal(True)),
+            ("C02,C08,C15:every-chunk-read-is-appended-to-the-buffer-before-the-next-read", z3.BoolVal(not g.get("unappended", False))),
+            ("C02,C08,C15:the-buffer-is-processed-after-every-append-before-the-next-read(promptness)", z3.BoolVal(not g.get("unprocessed", False)))]
+
+
+def _recv_havoc(ctx):
+    ctx.interp.ghost["unappended"] = False
+    ctx.interp.ghost["unprocessed"] = False
+
+
+_RECV_LOOP = LoopContract(_recv_inv, _recv_havoc, props="C12,C18", label="receive")
+
+
+def install_promptness_ghost(I):
+    """ghost flags for the call-site half of C02's promptness clause: a chunk that was read is appended, and the buffer is
+    processed, before the connection waits for more data"""
+    def append(I_, f, a, k):
+        I_.ghost["unappended"] = False
+        I_.ghost["unprocessed"] = True
+        return I_.run_function(f, a, k)
+    I.call_hooks[(BUF, "Buffer.append")] = append
 RECV_TCP = Contract(TCP_S, "ConnectionHandler.wait_for_messages", loop_selector=_recv_loop)
 RECV_TTY = Contract(TTY_S, "ConnectionHandler.wait_for_messages", loop_selector=_recv_loop)
 RECV_CLI = Contract(TCP_C, "ConnectionHandler.wait_for_messages", loop_selector=_recv_loop)
@@ -213,6 +238,7 @@ def task_client_receive():
         CH = mod.ns["ConnectionHandler"]
         I.contracts[BUFFER_PROCESS.key] = BUFFER_PROCESS
         I.contracts[RECV_CLI.key] = RECV_CLI
+        install_promptness_ghost(I)
         I.await_hook = default_await
         got = []
 
@@ -264,6 +290,7 @@ def task_c18(which):
             CH = mod.ns["ConnectionHandler"]
             I.contracts[BUFFER_PROCESS.key] = BUFFER_PROCESS
             I.contracts[RECV_TCP.key] = RECV_TCP
+            install_promptness_ghost(I)
             I.await_hook = cancellable_await
             reader, writer = Sym(I.fresh("reader"), ReaderIface()), Sym(I.fresh("writer"), WriterIface())
             router = Sym(I.fresh("router"), RouterIface())
